@@ -58,6 +58,7 @@ func TestSingleUseContext(t *testing.T) {
 		var repeats, reincludes, rollbacks int
 		render := func() any { return map[string]any{"ops": ops} }
 
+		avoidV2Repeat := vk.IsKnown("C33:single-use:context-check:v2:recorded-hash-accepted") && rapid.IntRange(0, 9).Draw(t, "avoidKnownV2") < 5
 		attempt := func(t *rapid.T) {
 			if len(free) == 0 {
 				t.Skip()
@@ -92,6 +93,9 @@ func TestSingleUseContext(t *testing.T) {
 			}
 			if ver == 0 && len(hashes) == 2 && hashes[0] == hashes[1] {
 				hashes = hashes[:1] // a v0 payload must not list a hash twice (sanity rule, not our subject)
+			}
+			if repeat && ver == 2 && avoidV2Repeat {
+				ver = byte(rapid.IntRange(0, 1).Draw(t, "versionNot2"))
 			}
 			ci := rapid.IntRange(0, len(free)-1).Draw(t, "coin")
 			c := free[ci]
